@@ -202,7 +202,7 @@ Qed.
 Lemma Proto_map st (h : sub -> sub) st' :
   (forall x, s_conn (h x) = s_conn x /\ s_sig (h x) = s_sig x /\ s_pc (h x) = s_pc x) ->
   subs st' = map h (subs st) -> cl st' = cl st -> table st' = table st -> up st' = up st ->
-  (forall c f n, pend st' = Some (c, f, n) -> no_derror f) ->
+  (forall c f n, pend st' = Some (c, f, n) -> is_dreply f) ->
   (forall c f, In f (down st' c) -> no_derror f) ->
   Proto st -> Proto st'.
 Proof.
@@ -503,7 +503,7 @@ Qed.
 
 Lemma Proto_core_same st st' :
   subs st' = subs st -> cl st' = cl st -> table st' = table st -> up st' = up st ->
-  (forall c f n, pend st' = Some (c, f, n) -> no_derror f) ->
+  (forall c f n, pend st' = Some (c, f, n) -> is_dreply f) ->
   (forall c f, In f (down st' c) -> no_derror f) ->
   Proto st -> Proto st'.
 Proof.
@@ -527,7 +527,7 @@ Proof.
   - (* reply *)
     destruct HP as [PK PP PD]. apply (Proto_core_same st); try reflexivity; [discriminate| |split; assumption].
     intros c0 f0. psimpl. destruct (Nat.eq_dec c0 c) as [->|Ne]; [rewrite fupd_eq|rewrite fupd_neq by exact Ne; apply PD].
-    intro Hin. apply in_app_or in Hin as [Hin|[<-|[]]]; [now apply (PD c)|]. eapply PP; eassumption.
+    intro Hin. apply in_app_or in Hin as [Hin|[<-|[]]]; [now apply (PD c)|]. apply is_dreply_no_derror. eapply PP; eassumption.
   - (* emit snap *)
     destruct HP as [PK PP PD]. apply (Proto_map st (note_emit st sig p)); try reflexivity; try assumption; [|split; assumption].
     intro y. unfold note_emit. destruct ((s_sig y =? sig) && live (s_pc y)); auto.
